@@ -107,6 +107,16 @@ func run(c *core.Ctx) {
 		}
 		varlenTrial(c, id, i)
 	}
+	for i, n := 0, c.Scale(800, 40000); i < n; i++ {
+		if !c.Mine(i) {
+			continue
+		}
+		id := fmt.Sprintf("stacked%d", i)
+		if !c.Case(id) {
+			continue
+		}
+		stackedTrial(c, id, i)
+	}
 	for b := 0; b < nBase; b++ {
 		if !c.Mine(b) {
 			continue
